@@ -81,6 +81,23 @@ pub mod vsync {
     }
 }
 verus! {
+// str -> value: `s.parse::<F>()` is a function of the text (whatever F's grammar is); `s.trim()` is a function of the text
+#[verifier::external_type_specification]
+#[verifier::external_body]
+pub struct ExParseIntError(core::num::ParseIntError);
+#[verifier::external_trait_specification]
+pub trait ExFromStr: Sized {
+    type ExternalTraitSpecificationFor: core::str::FromStr;
+    type Err;
+    fn from_str(s: &str) -> std::result::Result<Self, Self::Err>;
+}
+pub uninterp spec fn parse_spec<F>(s: Seq<char>) -> std::option::Option<F>;
+pub assume_specification<F: core::str::FromStr>[ str::parse::<F> ](s: &str) -> (r: std::result::Result<F, F::Err>)
+    ensures match r { Ok(v) => parse_spec::<F>(s@) == std::option::Option::Some(v), Err(_) => parse_spec::<F>(s@) is None };
+pub uninterp spec fn trim_spec(s: Seq<char>) -> Seq<char>;
+pub assume_specification[ str::trim ](s: &str) -> (r: &str) ensures r@ == trim_spec(s@);
+}
+verus! {
 // Option / Result combinators vstd lacks
 pub assume_specification<T, F: FnOnce() -> std::option::Option<T>> [std::option::Option::<T>::or_else] (o: std::option::Option<T>, f: F) -> (r: std::option::Option<T>)
     requires o is None ==> f.requires(()),
